@@ -34,7 +34,7 @@ def gen(ctx):
     for i in range(n):
         cfg = updenc.gen_cfg(rng)
         content, exp = updenc.gen_content(rng, cfg, size=rng.choice(['small', 'normal', 'normal']))
-        kind = rng.choice(['valid', 'valid', 'unknown', 'unknown', 'malformed', 'malformed', 'dup', 'badnlri', 'boundary'])
+        kind = rng.choice(['valid', 'valid', 'unknown', 'unknown', 'malformed', 'malformed', 'dup', 'badnlri', 'boundary', 'emptyreach'])
         attrs = list(content['attrs'])
         if kind == 'boundary':
             # a recognised attribute whose value is 252..260 octets long: the one-octet / two-octet length form changes at 255|256
@@ -72,6 +72,15 @@ def gen(ctx):
             a = rng.choice(attrs)
             attrs.insert(rng.below(len(attrs) + 1), (a[0], a[1], a[2], a[3]))
         content['attrs'] = attrs
+        if kind == 'emptyreach':
+            # an MP_REACH_NLRI attribute that is there but carries no NLRI (family, next hop, reserved octet only), with nothing in
+            # the conventional section - and, half of the time, an equally empty MP_UNREACH_NLRI or some withdrawals
+            fam = content['reach'][0] if content['reach'] else rng.choice(nlrienc.FAMS)
+            content['reach'] = (fam, bytes(rng.below(256) for _ in range(updenc.NH_LEN[fam][0])), [])
+            content['ann'] = []
+            if rng.chance(1, 4):
+                content['unreach'] = (fam, [])
+                content['wd'] = []
         if kind == 'badnlri':
             if content['reach'] is None:
                 fam = rng.choice(nlrienc.FAMS)
